@@ -13,7 +13,7 @@ import ast
 from .. import astutil as A
 from ..fa import FA
 from ..loader import AnalysisError
-from .valeq import check_typed_identity, check_json_bytes, check_enum_distinct
+from .valeq import check_typed_identity, check_json_bytes, check_enum_distinct, VALUE_PARAMS
 from .ladders import extract_ladder, check_ladder_order, repo_subclass_pairs, dispatch_model
 from .fresh import flow_nodes, alternatives, value_cases, param_rooted, return_cases, at_of, attr_writes, guarded_cases, static_value as _static
 
@@ -1578,12 +1578,449 @@ def check_normalize_is_round_trip(ck, R):
           nm.where(bad_other[0][0]) if bad_other else nm.where())
 
 
+# ---- a value is not looked up by equality -------------------------------------------------------------------
+# lookups of a mapping / set by key: `==` and hash() decide which entry answers
+_KEYED_READS = {"get", "setdefault", "pop", "__getitem__", "__contains__"}
+# classes whose instances compare equal only when they are written the same way
+_TEXTUAL = {"str", "None", "bytes"}
+
+
+_SUBCLASSES = {"int": ("bool",), "date": ("datetime", "datetime.datetime", "Timestamp"), "datetime": ("Timestamp",)}
+
+
+def _exact_class_facts(fa: FA, e, pol: bool, param: str):
+    """`type(P) is K` / `type(P) in (K, ...)` holding: P is an instance of no proper subclass of K -> the subclasses ruled out."""
+    out = set()
+    if isinstance(e, ast.UnaryOp) and isinstance(e.op, ast.Not):
+        return _exact_class_facts(fa, e.operand, not pol, param)
+    if isinstance(e, ast.BoolOp) and isinstance(e.op, ast.And) and pol:
+        for v in e.values:
+            out |= _exact_class_facts(fa, v, True, param)
+        return out
+    if not (pol and isinstance(e, ast.Compare) and len(e.ops) == 1 and isinstance(e.ops[0], (ast.Is, ast.Eq, ast.In))):
+        return out
+
+    def type_of_p(x):
+        return (isinstance(x, ast.Call) and isinstance(x.func, ast.Name) and x.func.id == "type" and len(x.args) == 1 and isinstance(x.args[0], ast.Name) and x.args[0].id == param) or \
+            (isinstance(x, ast.Attribute) and x.attr == "__class__" and isinstance(x.value, ast.Name) and x.value.id == param)
+
+    l, r = e.left, e.comparators[0]
+    other = r if type_of_p(l) else l if (type_of_p(r) and not isinstance(e.ops[0], ast.In)) else None
+    if other is None:
+        return out
+    ks = _class_tokens(fa, other)
+    for k in ks or ():
+        out |= {sub for sub in _SUBCLASSES.get(k.split(".")[-1], ()) if sub not in ks}
+    return out
+
+
+_NUMERIC = {"int", "float", "bool", "complex", "Decimal", "Fraction", "Number", "Real", "Rational", "Integral"}
+_INEXACT = {"float", "complex", "Number", "Real"}
+
+
+def _conflated(adm: _Adm, typed: bool = False):
+    """Which differently written values of the admitted classes `==` identifies (None: none that is known - the numeric
+    tower and the date classes are what the argument domain holds; a class this table does not know is taken to compare
+    by identity).  `typed`: the key holds the class of the value next to the value, so only values of one class meet."""
+    if adm.classes is None:
+        if typed:
+            return "nothing confines the class of the key there, and 0.0 == -0.0 (the class in the key keeps 7 and 7.0 apart, not the two zeros)"
+        return "nothing confines the class of the key there, and 1 == 1.0 == True, 0.0 == -0.0, a datetime == its Timestamp"
+    ks = {k.split(".")[-1] for k in adm.classes}
+    ex = {k.split(".")[-1] for k in adm.excluded}
+    num = ks & _NUMERIC
+    if num & _INEXACT:
+        return "0.0 == -0.0" + (" (the class in the key keeps 7 and 7.0 apart, not the two zeros)" if typed else ", 7 == 7.0" if len(num) > 1 else "")
+    if typed:
+        return None
+    if len(num) > 1 or (num and num != {"bool"} and "bool" not in ex):
+        return "True == 1" + (" (an int key admits bool)" if num == {"int"} else "") + (", 7 == Decimal(7)" if num - {"int", "bool"} else "")
+    if ("datetime" in ks or ("date" in ks and "datetime" not in ex)) and "Timestamp" not in ex:
+        return "a datetime == the Timestamp of the same instant (recorded as another type), and two zoned datetimes for one instant are equal whatever their zones"
+    return None
+
+
+def _local_guards(st, node):
+    """The tests inside statement `st` that have come out a known way when `node` is evaluated: [(test, polarity)]
+    (branch of a conditional expression, later operand of and / or, element of a filtered comprehension)."""
+    pm = A.parent_map(st)
+    out = []
+    ch = node
+    while ch is not st and ch in pm:
+        p = pm[ch]
+        if isinstance(p, ast.IfExp):
+            if ch is p.body:
+                out.append((p.test, True))
+            elif ch is p.orelse:
+                out.append((p.test, False))
+        elif isinstance(p, ast.BoolOp):
+            i = next((k for k, v in enumerate(p.values) if v is ch), 0)
+            out += [(v, isinstance(p.op, ast.And)) for v in p.values[:i]]
+        elif isinstance(p, (ast.ListComp, ast.SetComp, ast.GeneratorExp, ast.DictComp)) and not isinstance(ch, ast.comprehension):
+            for g in p.generators:
+                out += [(c, True) for c in g.ifs]
+        ch = p
+    return out
+
+
+def _binders(st, node):
+    """{name: iterable} for the comprehension variables of `st` in whose scope `node` lies."""
+    pm = A.parent_map(st)
+    out = {}
+    ch = node
+    while ch is not st and ch in pm:
+        p = pm[ch]
+        if isinstance(p, (ast.ListComp, ast.SetComp, ast.GeneratorExp, ast.DictComp)):
+            for g in p.generators:
+                for x in ast.walk(g.target):
+                    if isinstance(x, ast.Name):
+                        out.setdefault(x.id, g.iter)
+        ch = p
+    return out
+
+
+def _value_atoms(fa: FA, st, e, at, vals):
+    """The value-carrying parameters `e` (inside statement `st`) derives from."""
+    try:
+        d = fa.df.deps(e, at, None, _binders(st, e) or None)
+    except Exception:
+        return set()
+    return {x[6:] for x in d if x.startswith("param:") and x[6:] in vals}
+
+
+def _is_member(fa: FA, st, node, name, at, vals, kind_of) -> bool:
+    """Is `name` (at `node` in statement `st`) a part of an argument value: the variable of a loop / comprehension over a
+    value-carrying parameter, its .values() or the value half of its .items().  The keys of a parameter that is a mapping
+    from parameter names to values (kwargs, context arguments) are names, not values; the keys of a parameter that holds one
+    value and has been found to be a dict by a test on the path are part of that value.  `kind_of(parameter)` says which:
+    'value' (class tested on the path), 'sequence' / 'mapping' (by annotation), None."""
+    def members_of(it, tgt):
+        it = _strip_cast(it)
+        while isinstance(it, ast.Call) and isinstance(it.func, ast.Name) and it.func.id in ("list", "tuple", "sorted", "reversed", "iter") and it.args:
+            it = _strip_cast(it.args[0])
+        if isinstance(it, ast.Call) and isinstance(it.func, ast.Name) and it.func.id == "enumerate" and it.args and isinstance(tgt, ast.Tuple) and len(tgt.elts) == 2:
+            return members_of(it.args[0], tgt.elts[1])
+        if isinstance(it, ast.Name) and it.id in vals:
+            return isinstance(tgt, ast.Name) and tgt.id == name and kind_of(it.id) in ("value", "sequence")
+        if isinstance(it, ast.Call) and isinstance(it.func, ast.Attribute) and isinstance(it.func.value, ast.Name) and it.func.value.id in vals and not it.args:
+            if it.func.attr == "values":
+                return isinstance(tgt, ast.Name) and tgt.id == name
+            if it.func.attr == "keys":
+                return isinstance(tgt, ast.Name) and tgt.id == name and kind_of(it.func.value.id) == "value"
+            if it.func.attr == "items" and isinstance(tgt, ast.Tuple) and len(tgt.elts) == 2:
+                return (isinstance(tgt.elts[1], ast.Name) and tgt.elts[1].id == name) or \
+                    (isinstance(tgt.elts[0], ast.Name) and tgt.elts[0].id == name and kind_of(it.func.value.id) == "value")
+        return False
+
+    pm = A.parent_map(st)
+    ch = node
+    while ch is not st and ch in pm:
+        p = pm[ch]
+        if isinstance(p, (ast.ListComp, ast.SetComp, ast.GeneratorExp, ast.DictComp)):
+            for g in p.generators:
+                if any(isinstance(x, ast.Name) and x.id == name for x in ast.walk(g.target)):
+                    return members_of(g.iter, g.target)
+        ch = p
+    ds = fa.df.reaching(at, name)
+    if not ds or not all(d.kind in ("for", "unpack") for d in ds):
+        return False
+    loops = [l for l in fa.stmts(ast.For) if any(isinstance(x, ast.Name) and x.id == name for x in ast.walk(l.target))]
+    return bool(loops) and all(members_of(l.iter, l.target) for l in loops)
+
+
+def _stmt_exprs(st):
+    if isinstance(st, (ast.If, ast.While)):
+        return [st.test]
+    if isinstance(st, (ast.For, ast.AsyncFor)):
+        return [st.iter]
+    if isinstance(st, (ast.With, ast.AsyncWith)):
+        return [i.context_expr for i in st.items]
+    if isinstance(st, (ast.Try, ast.FunctionDef, ast.AsyncFunctionDef, ast.ClassDef)):
+        return []
+    return [st]
+
+
+def _value_carriers(ck, modules):
+    """{qualified name: (FA, parameters that hold argument values)}: the functions of the frozen table, and - to a fixed point -
+    the functions new w.r.t. the inventory that one of them hands such a value (they have no row of their own); for those,
+    the call sites that hand the value over."""
+    from ..inline import new_functions
+    out = {}
+    sites = {}   # (new function, parameter) -> [(calling FA, statement, call, argument)]
+    for q, ps in VALUE_PARAMS.items():
+        fi = ck.repo.try_func(q) if q.split(".")[0] in modules else None
+        if fi is not None:
+            out[fi.qual] = (FA(ck, fi), set(ps) & set(fi.params))
+    new = {}
+    for fi in new_functions(ck.repo):
+        if fi.qual.split(".")[0] in modules and fi.qual not in out:
+            new.setdefault(fi.name, []).append(fi)
+    changed = bool(new)
+    rounds = 0
+    while changed and rounds < 6:
+        changed = False
+        rounds += 1
+        for (fa, vals) in list(out.values()):
+            if not vals:
+                continue
+            for st in fa.stmts():
+                ids = fa.nodes(st)
+                if not ids:
+                    continue
+                for ex in _stmt_exprs(st):
+                    for c in A.walk_local(ex):
+                        if isinstance(c, ast.Call) and isinstance(c.func, ast.Name) and c.func.id in ("map", "filter") and len(c.args) == 2 and \
+                                isinstance(c.args[0], (ast.Name, ast.Attribute)) and (A.dotted(c.args[0]) or "").split(".")[-1] in new and \
+                                _value_atoms(fa, st, c.args[1], ids[0], vals):
+                            # map(helper, members of the value): the helper's first parameter holds a member
+                            for tgt in new[A.dotted(c.args[0]).split(".")[-1]]:
+                                ps = [p for p in tgt.params if p not in ("self", "cls")] if tgt.cls is not None and not _is_static(tgt) else list(tgt.params)
+                                have = out.get(tgt.qual)
+                                if ps and not any(s_[2] is c for s_ in sites.setdefault((tgt.qual, ps[0]), [])):
+                                    sites[(tgt.qual, ps[0])].append((fa, st, c, None))
+                                if ps and (have is None or ps[0] not in have[1]):
+                                    out[tgt.qual] = (have[0] if have else FA(ck, tgt), (have[1] if have else set()) | {ps[0]})
+                                    changed = True
+                            continue
+                        if not (isinstance(c, ast.Call) and A.call_attr(c) in new):
+                            continue
+                        for tgt in new[A.call_attr(c)]:
+                            ps = [p for p in tgt.params if p not in ("self", "cls")] if tgt.cls is not None and not _is_static(tgt) else list(tgt.params)
+                            got = {}
+                            for i, a in enumerate(c.args):
+                                if not isinstance(a, ast.Starred) and i < len(ps) and _raw_value(fa, st, c, a, ids[0], vals, ck, sites):
+                                    got[ps[i]] = a
+                            for k in c.keywords:
+                                if k.arg in tgt.params and _raw_value(fa, st, c, k.value, ids[0], vals, ck, sites):
+                                    got[k.arg] = k.value
+                            have = out.get(tgt.qual)
+                            for p_, a_ in got.items():
+                                site = (fa, st, c, a_)
+                                if not any(s_[2] is c and s_[3] is a_ for s_ in sites.setdefault((tgt.qual, p_), [])):
+                                    sites[(tgt.qual, p_)].append(site)
+                            if got and (have is None or not set(got) <= have[1]):
+                                out[tgt.qual] = (have[0] if have else FA(ck, tgt), (have[1] if have else set()) | set(got))
+                                changed = True
+    return out, sites
+
+
+def _annotation_of(fa: FA, param: str):
+    for a in fa.fi.node.args.posonlyargs + fa.fi.node.args.args + fa.fi.node.args.kwonlyargs:
+        if a.arg == param and a.annotation is not None:
+            ann = a.annotation
+            if isinstance(ann, ast.Constant) and isinstance(ann.value, str):
+                try:
+                    ann = ast.parse(ann.value, mode="eval").body
+                except SyntaxError:
+                    return None
+            return ann
+    return None
+
+
+def _annotated_classes(fa: FA, param: str):
+    """The classes the annotation of a parameter names (Optional / Union taken apart, subscripts reduced to their base);
+    None when there is none or it is Any / object / something that is not a class name."""
+    def toks(ann):
+        if isinstance(ann, ast.Constant) and ann.value is None:
+            return {"None"}
+        if isinstance(ann, ast.Subscript):
+            head = (A.dotted(ann.value) or "").split(".")[-1]
+            if head == "Optional":
+                t = toks(ann.slice)
+                return None if t is None else t | {"None"}
+            if head == "Union":
+                out = set()
+                for e in (ann.slice.elts if isinstance(ann.slice, ast.Tuple) else [ann.slice]):
+                    t = toks(e)
+                    if t is None:
+                        return None
+                    out |= t
+                return out
+            return toks(ann.value)
+        d = A.dotted(ann)
+        if not d or d.split(".")[-1] in ("Any", "object", "Hashable", "T"):
+            return None
+        return {d}
+
+    ann = _annotation_of(fa, param)
+    return toks(ann) if ann is not None else None
+
+
+def _class_facts_at(fa: FA, st, node, name: str, ck, sites, depth=0, annotations=True) -> _Adm:
+    """What is known about the class of the object `name` holds when `node` (inside statement `st`) is evaluated: the path
+    condition of the statement and the tests around the node inside it; for a parameter of a helper that is new w.r.t. the
+    inventory also what its callers know about the argument they pass (any of them may be the caller)."""
+    conds = fa.conditions(st)
+    ck.need(conds is not None, "%s: too many paths to `%s`" % (fa.qual, A.short(st, 50)))
+    acc = None
+    for conj in (conds or [frozenset()]):
+        a = _Adm()
+        lits = []
+        for (txt, pol) in sorted(conj):
+            try:
+                lits.append((ast.parse(txt, mode="eval").body, pol))
+            except SyntaxError:
+                continue
+        for (e, pol) in lits + _local_guards(st, node):
+            a = a.both(_admitted(fa, e, pol, name))
+            a = a.both(_Adm(None, _exact_class_facts(fa, e, pol, name)))
+        acc = a if acc is None else acc.either(a)
+    acc = acc if acc is not None else _Adm()
+    callers = sites.get((fa.qual, name))
+    if acc.classes is None and not callers and annotations:
+        # no test on the path: a parameter is what its annotation says (Any / object say nothing)
+        ann = _annotated_classes(fa, name)
+        if ann:
+            acc = acc.both(_Adm(ann))
+    if callers and depth < 4 and fa.df.reaching(fa.nodes(st)[0], name) and all(d.kind == "param" for d in fa.df.reaching(fa.nodes(st)[0], name)):
+        outer = None
+        for (cfa, cst, call, arg) in callers:
+            try:
+                ae = _strip_cast(cfa.expand(arg, cfa.nodes(cst)[0])) if arg is not None else None
+            except AnalysisError:
+                ae = arg
+            o = _class_facts_at(cfa, cst, call, ae.id, ck, sites, depth + 1) if isinstance(ae, ast.Name) else _Adm()
+            outer = o if outer is None else outer.either(o)
+        acc = acc.both(outer)
+    return acc
+
+
+_SEQUENCES = {"list", "tuple", "set", "frozenset", "List", "Tuple", "Sequence", "Set", "FrozenSet", "Iterable", "Collection", "deque"}
+
+
+def _kind_there(fa: FA, st, node, param: str, ck, sites):
+    """'value': the parameter holds one argument value whose class a test on the path has established; else by its
+    annotation 'sequence' (of values) or 'mapping' (names -> values); None when nothing is known."""
+    adm = _class_facts_at(fa, st, node, param, ck, sites, annotations=False)
+    if adm.classes is not None:
+        return "value"
+    ann = _annotation_of(fa, param)
+    if ann is None:
+        return None
+    while isinstance(ann, ast.Subscript) and (A.dotted(ann.value) or "").split(".")[-1] == "Optional":
+        ann = ann.slice
+    base = ann.value if isinstance(ann, ast.Subscript) else ann
+    last = (A.dotted(base) or "").split(".")[-1]
+    return "sequence" if last in _SEQUENCES else "mapping" if last in ("dict", "Dict", "Mapping", "OrderedDict", "MutableMapping") else None
+
+
+def _raw_value(fa: FA, st, node, e, at, vals, ck, sites):
+    """The name under which `e` (inside `node` of statement `st`) is an argument value as it was passed - a value-carrying
+    parameter itself or a part drawn from one - else None (a rendering, a field, a class ... of it is not the value)."""
+    try:
+        x = _strip_cast(fa.expand(e, at))
+    except AnalysisError:
+        x = _strip_cast(e)
+    if not isinstance(x, ast.Name):
+        return None
+    if x.id in _binders(st, node):
+        return x.id if _is_member(fa, st, node, x.id, at, vals, lambda q: _kind_there(fa, st, node, q, ck, sites)) else None
+    ds = fa.df.reaching(at, x.id)
+    if x.id in vals and ds and all(d.kind == "param" for d in ds):
+        return x.id
+    return x.id if _is_member(fa, st, node, x.id, at, vals, lambda q: _kind_there(fa, st, node, q, ck, sites)) else None
+
+
+def _is_static(fi) -> bool:
+    return any(A.norm(d) == "staticmethod" for d in fi.node.decorator_list)
+
+
+def check_values_not_looked_up_by_equality(ck, R, modules=("serialization", "reference", "metadata")):
+    """"Encoding ... and decoding it again yields an equivalent memento ... the argument hash recomputed from the decoded
+    arguments equals the original one": the written form of an argument value (its wire object, its canonical text) is a
+    function of THAT value and its class.  Python's `==` / hash() are coarser than the wire format - 7 == 7.0 == Decimal(7),
+    True == 1, 0.0 == -0.0, a datetime equals its Timestamp - and each of these is written differently.  A mapping or set
+    that is looked up with a raw argument value as (part of) the key therefore answers one value with what was recorded for
+    another, and what a value is written as starts to depend on which values were met before.  Such a lookup is sound only
+    where the path condition confines the key to classes whose instances are equal only when written the same (text, None,
+    one integral class with bool ruled out); the key may of course be any rendering that is itself class-faithful (the
+    text, a (class, text) pair), which is not a raw value."""
+    ck.rule(R, "the written form of an argument value depends on that value and its class only: a raw argument value is the key of a "
+               "mapping / set lookup only where the path confines it to classes that == does not conflate (text, None, one integral class)", 1)
+    n_sites = 0
+    scanned = []
+    carriers, sites = _value_carriers(ck, modules)
+    typed_caches = {}
+    for fi in ck.repo.all_funcs():
+        if any(isinstance(d, ast.Call) and A.norm(d.func).split(".")[-1] == "lru_cache" and A.norm(A.kwarg(d, "typed")) == "True" for d in fi.node.decorator_list):
+            typed_caches.setdefault(fi.name, []).append(fi)
+    for qual, (fa, vals) in sorted(carriers.items()):
+        if not vals:
+            continue
+        scanned.append(qual)
+        for st in fa.stmts():
+            ids = fa.nodes(st)
+            if not ids:
+                continue
+            at = ids[0]
+            for ex in _stmt_exprs(st):
+                for n in A.walk_local(ex):
+                    cont = key = None
+                    if isinstance(n, ast.Subscript) and isinstance(n.ctx, ast.Load) and not isinstance(n.slice, ast.Slice):
+                        cont, key = n.value, n.slice
+                    elif isinstance(n, ast.Call) and isinstance(n.func, ast.Attribute) and n.func.attr in _KEYED_READS and n.args and not isinstance(n.args[0], ast.Starred):
+                        cont, key = n.func.value, n.args[0]
+                    elif isinstance(n, ast.Compare) and len(n.ops) == 1 and isinstance(n.ops[0], (ast.In, ast.NotIn)):
+                        cont, key = n.comparators[0], n.left
+                    elif isinstance(n, ast.Call) and A.call_attr(n) in typed_caches and any(f.module is fa.fi.module or f.name in fa.fi.module.imports or f.cls is not None for f in typed_caches[A.call_attr(n)]):
+                        # a call of a function behind functools.lru_cache(typed=True): its arguments, each with its class, are the key
+                        # (the untyped caches are the typed-identity lint's)
+                        cont, key = None, ast.Tuple(elts=[x for a in n.args if not isinstance(a, ast.Starred) for x in (a, ast.Call(func=ast.Name(id="type", ctx=ast.Load()), args=[a], keywords=[]))] +
+                                                    [x for k in n.keywords if k.arg for x in (k.value, ast.Call(func=ast.Name(id="type", ctx=ast.Load()), args=[k.value], keywords=[]))], ctx=ast.Load())
+                    else:
+                        continue
+                    if cont is not None:
+                        if not isinstance(cont, (ast.Name, ast.Attribute)):
+                            continue
+                        # the container is not (a part of) the argument itself
+                        if _value_atoms(fa, st, cont, at, vals) or (isinstance(cont, ast.Name) and cont.id in _binders(st, n)):
+                            continue
+                        try:
+                            ce = _strip_cast(fa.expand(cont, at))
+                        except AnalysisError:
+                            ce = cont
+                        if isinstance(ce, (ast.Constant, ast.Tuple, ast.JoinedStr)) or (isinstance(ce, ast.Name) and ce.id in fa.fi.params):
+                            continue
+                    # the raw values in the key
+                    try:
+                        ke = _strip_cast(fa.expand(key, at))
+                    except AnalysisError:
+                        ke = key
+                    leaves, todo, classes_in_key = [], [ke], set()
+                    while todo:
+                        x = _strip_cast(todo.pop())
+                        if isinstance(x, ast.Tuple):
+                            todo += x.elts
+                        elif isinstance(x, ast.Call) and isinstance(x.func, ast.Name) and x.func.id == "type" and len(x.args) == 1 and isinstance(x.args[0], ast.Name):
+                            classes_in_key.add(x.args[0].id)
+                        elif isinstance(x, ast.Attribute) and x.attr == "__class__" and isinstance(x.value, ast.Name):
+                            classes_in_key.add(x.value.id)
+                        elif isinstance(x, ast.IfExp):
+                            todo += [x.body, x.orelse]
+                        elif isinstance(x, ast.BoolOp):
+                            todo += x.values
+                        elif isinstance(x, ast.Name) and _raw_value(fa, st, n, x, at, vals, ck, sites):
+                            leaves.append(x.id)
+                    for p in sorted(set(leaves)):
+                        n_sites += 1
+                        acc = _class_facts_at(fa, st, n, p, ck, sites)
+                        why = _conflated(acc, p in classes_in_key)
+                        ck.ob(R, fa.key(st, "value-keyed-lookup:%s" % p), why is None,
+                              "`%s` looks `%s` up where equal keys are written the same (%s)" % (A.short(n, 50), p, "classes " + ", ".join(sorted(acc.classes)) if acc.classes else "class in key") if why is None else
+                              "`%s` looks an entry up by the raw argument value `%s` (key `%s`), and %s: a value is answered with what was recorded for "
+                              "another value that merely compares equal but is written differently on the wire and in the canonical text, so the written "
+                              "form and the argument hash of a value depend on which values were seen before - the hash recomputed from a decoded "
+                              "memento is not the original one" % (A.short(n, 50), p, A.short(key, 40), why), fa.where(st))
+    ck.ob(R, "value-keyed-lookup::scan", True, "%d lookups keyed by a raw argument value in %d value-carrying functions (%s)" % (n_sites, len(scanned), ", ".join(scanned)), "")
+
+
 def check(ck):
     from .memo import check_new_memo_tables
     ck.run(check_new_memo_tables, ck, "C11.M1", ('serialization', 'reference', 'metadata'))
     ck.run(check_plain_json, ck, "C11.R8")
     ck.run(check_dict_keys_survive, ck, "C11.R9")
     ck.run(check_normalize_is_round_trip, ck, "C11.R10")
+    ck.run(check_values_not_looked_up_by_equality, ck, "C11.R11")
     R1, R2, R3, R4, R5 = ("C11.R%d" % i for i in range(1, 6))
     ck.rule(R1, "pairwise key agreement: for each encode/decode pair the keys of the emitted object equal the keys the decoder reads", 7)
     ck.rule(R2, "field coverage: for each rebuilt class, constructor parameters == keyword arguments the decoder passes, "
